@@ -81,6 +81,8 @@ Qed.
 
 (* ---- one pass ------------------------------------------------------------------------------------------ *)
 
+Definition vr0 : vr := (0, 0).
+
 Section Pass.
 Variable k : N.
 
@@ -169,14 +171,14 @@ Qed.
 
 (** the scatter *)
 Lemma scatter_inv all : N.of_nat (length all) <= u32_max ->
-  forall rest done pos dst, all = done ++ rest ->
+  forall (rest done : list vr) (pos : list N) (dst : list vr), all = done ++ rest ->
     length dst = length all -> length pos = 256%nat ->
     (forall i, (i < 256)%nat -> nth i pos 0 = N.of_nat (stn all i + cn done i)) ->
     (forall i, (i < 256)%nat -> forall j, (j < cn done i)%nat ->
-       nth (stn all i + j) dst (0, 0) = nth j (bucket done i) (0, 0)) ->
+       nth (stn all i + j) dst vr0 = nth j (bucket done i) vr0) ->
     exists dst', scatter k rest pos dst = Ok dst' /\ length dst' = length all /\
       (forall i, (i < 256)%nat -> forall j, (j < cn all i)%nat ->
-         nth (stn all i + j) dst' (0, 0) = nth j (bucket all i) (0, 0)).
+         nth (stn all i + j) dst' vr0 = nth j (bucket all i) vr0).
 Proof.
   intros Hn. induction rest as [|p rest IH]; intros done pos dst Hall Hld Hlp I1 I3; cbn [scatter].
   - rewrite app_nil_r in Hall. subst done. exists dst. auto.
@@ -200,12 +202,12 @@ Proof.
       * rewrite (I1 i Hi). destruct (N.eqb_spec b (N.of_nat i)) as [Hb|Hb]; [exfalso; apply Hne; lia|].
         unfold cn at 3; simpl. lia.
     + intros i Hi j Hj. rewrite nth_set_nth by lia. rewrite bucket_app.
-      rewrite cn_app, cn_cons in Hj. rewrite <- Eb in Hj. unfold cn at 2 in Hj. simpl in Hj.
+      rewrite cn_app, cn_cons in Hj. rewrite <- Eb in Hj. change (cn [] i) with 0%nat in Hj.
       destruct (Nat.eqb_spec i ib) as [->|Hne].
       * rewrite Hbi, N.eqb_refl in Hj.
         destruct (Nat.eqb_spec (stn all ib + j) (stn all ib + cn done ib)) as [He|He].
         -- assert (j = cn done ib) by lia. subst j. unfold cn. rewrite app_nth2 by lia.
-           rewrite Nat.sub_diag. unfold bucket at 2. simpl. rewrite <- Eb, Hbi, N.eqb_refl. reflexivity.
+           rewrite Nat.sub_diag. unfold bucket. simpl. rewrite <- Eb, Hbi, N.eqb_refl. reflexivity.
         -- rewrite app_nth1 by (fold (cn done ib); lia). apply I3; auto. lia.
       * destruct (N.eqb_spec b (N.of_nat i)) as [Hb|Hb]; [exfalso; apply Hne; lia|].
         assert (Hj' : (j < cn done i)%nat) by lia.
@@ -218,7 +220,7 @@ Proof.
 Qed.
 
 (** THE pass lemma *)
-Theorem array_pass_eq_bucket_pass src dst :
+Theorem array_pass_eq_bucket_pass (src dst : list vr) :
   N.of_nat (length src) <= u32_max -> length dst = length src ->
   array_pass k src dst = Ok (bucket_pass k src).
 Proof.
@@ -231,7 +233,7 @@ Proof.
   { intros i Hi. rewrite (C3 i Hi), nth_repeat. lia. }
   pose proof (sum_firstn_counts src counts C2 Hc) as Hs.
   destruct (excl_prefix_spec counts 0) as (starts & S1 & S2 & S3).
-  { specialize (Hs 256%nat (le_n _)). rewrite <- C2, firstn_all in Hs. rewrite Hs, stn_256. lia. }
+  { rewrite <- (firstn_all counts), C2. rewrite Hs by lia. rewrite stn_256. lia. }
   rewrite S1. cbn [bind].
   destruct (scatter_inv src Hn src [] starts dst eq_refl Hl) as (dst' & D1 & D2 & D3).
   { lia. }
@@ -239,8 +241,8 @@ Proof.
   { intros i Hi j Hj. unfold cn in Hj; simpl in Hj. lia. }
   rewrite D1. f_equal.
   rewrite <- buckets_concat.
-  pose proof (assemble (0, 0) (bucket src) dst' 256 D3) as HA.
-  fold (stn src 256) in HA. rewrite stn_256 in HA. rewrite <- D2 in HA at 1. rewrite firstn_all in HA.
+  pose proof (assemble vr0 (bucket src) dst' 256 D3) as HA.
+  fold (stn src 256) in HA. rewrite stn_256 in HA. rewrite <- D2 in HA. rewrite firstn_all in HA.
   apply HA. lia.
 Qed.
 
